@@ -19,6 +19,12 @@ def run(prop, tier, seed, spec, t0):
     if os.environ.get("VERIF_RUNS"):
         extra = ["--runs", os.environ["VERIF_RUNS"]]
     results = M.run_shards(BIN, prop, tier, seed, outdir, extra)
+    if prop == "C18":
+        # the model-level half: toposort on the tables a real close loop produces (modelsim)
+        from . import model
+        mres, mdir, mbin, mcov, _ = model.run_shards(prop, tier, seed, suffix="-model")
+        return M.finish(prop, tier, seed, spec, results + mres, outdir, {"rtsim": BIN, "modelsim": mbin}, t0,
+                        extra_cov={"model_level": mcov}, extra_fp_dirs=[mdir])
     return M.finish(prop, tier, seed, spec, results, outdir, BIN, t0)
 
 
